@@ -44,10 +44,7 @@ func _roll32(src *rand.PCGSource, dicePoints int) int {
 }
 
 func _roll64(src *rand.PCGSource, dicePoints int64, mod int) int64 {
-	if dicePoints > math.MaxInt64-1 {
-		return 0
-	}
-
+	// 注: 面数为 MaxInt64 时同样成立(v%n+1 最大为 n)，不需要把它当作无法掷出的面数返回 0
 	v := src.Uint64()
 	n := uint64(dicePoints)
 	// 下面这段取整代码来自 golang 的 exp/rand
